@@ -257,9 +257,25 @@ pub fn dump_value(v: &XValue<W, R, T>) -> String {
     }
 }
 
+/// a host's own small root scope: no std library, only the native type `bool`
+pub fn sandbox_scope() -> Scope {
+    let mut scope: Scope = Scope::new();
+    let _ = scope.add_native_type("bool", xray::xtype::X_BOOL.clone());
+    scope
+}
+
+thread_local! {
+    static USE_SANDBOX: std::cell::Cell<bool> = const { std::cell::Cell::new(false) };
+}
+
+/// the next `compile` calls on this thread use the sandbox root scope instead of the std library
+pub fn set_sandbox(on: bool) {
+    USE_SANDBOX.with(|c| c.set(on));
+}
+
 /// compile `text` on top of the std library under the *currently installed* world
 pub fn compile_in_world(text: &str) -> Result<Scope, String> {
-    let mut scope: Scope = xray::std_compilation_scope();
+    let mut scope: Scope = if USE_SANDBOX.with(|c| c.get()) { sandbox_scope() } else { xray::std_compilation_scope() };
     match scope.feed_file(text) {
         Ok(()) => Ok(scope),
         Err(e) => Err(format!("{e}")),
